@@ -88,21 +88,33 @@ def r1(ctx):
     ok = len(rv) == 1 and rv[0][0][0] == 'agg' and len(rv[0][0][3]) == 3
     if not ok:
         raise AnchorMissing('_f1 returns (f1, precision, recall)')
-    defs = {nm: [core(v) for site, v in var_defs(f, nm)] for nm in ('precision', 'recall', 'f1', 'beta_sq')}
-    tp, fp, fn = ('cast', ('arg', 1, ANY), ANY), ('arg', 2, ANY), ('arg', 3, ANY)
+    tup = rv[0][0][3]
+    from rules.common import local_defs
+    from analysis.sym import init_value
+
+    def defs_of_comp(t):
+        t = core(t)
+        if t[0] in ('var', 'phi'):
+            loc = t[2] if t[0] == 'var' else t[1]
+            return [core(v) for site, v in local_defs(f, loc)]
+        return [t]
+    fs = defs_of_comp(tup[0])
+    pr = defs_of_comp(tup[1])
+    rc = defs_of_comp(tup[2])
 
     def ratio(other):
         return lambda t: t[0] == 'bin' and t[1] == 'Div' and match(t[2], ('arg', 1, ANY)) and \
             (match(t[3], Call('Ord::max', ('bin', 'Add', ('arg', 1, ANY), ('arg', other, ANY)), Const(1))))
-    okp = len(defs['precision']) == 1 and ratio(2)(defs['precision'][0])
-    okr = len(defs['recall']) == 1 and ratio(3)(defs['recall'][0])
-    ctx.require(okp, f, 'precision', 'precision = tp / max(tp + fp, 1)', 'precision = %s' % [show_in(f, x) for x in defs['precision']])
-    ctx.require(okr, f, 'recall', 'recall = tp / max(tp + fn, 1)', 'recall = %s' % [show_in(f, x) for x in defs['recall']])
-    fs = defs['f1']
+    okp = len(pr) == 1 and ratio(2)(pr[0])
+    okr = len(rc) == 1 and ratio(3)(rc[0])
+    ctx.require(okp, f, 'precision', 'precision = tp / max(tp + fp, 1)', 'precision = %s' % [show_in(f, x) for x in pr])
+    ctx.require(okr, f, 'recall', 'recall = tp / max(tp + fn, 1)', 'recall = %s' % [show_in(f, x) for x in rc])
     zero = [x for x in fs if x[0] == 'const' and x[1].replace('const ', '').startswith('0')]
     quo = [x for x in fs if x[0] == 'bin' and x[1] == 'Div']
-    P, R = N(f, 'precision'), N(f, 'recall')
-    B2 = Pred(lambda t: match(t, N(f, 'beta_sq')) or match(t, Call('powi', ('arg', 4, ANY), Const(2))) or match(t, ('bin', 'Mul', ('arg', 4, ANY), ('arg', 4, ANY))))
+    P = Pred(lambda t: len(pr) == 1 and nosite(core(t)) == nosite(pr[0]))
+    R_ = Pred(lambda t: len(rc) == 1 and nosite(core(t)) == nosite(rc[0]))
+    R = R_
+    B2 = Pred(lambda t: match(core(t), Call('powi', ('arg', 4, ANY), Const(2))) or match(core(t), ('bin', 'Mul', ('arg', 4, ANY), ('arg', 4, ANY))))
 
     def comm(op, x, y):
         return Pred(lambda t: match(t, ('bin', op, x, y)) or match(t, ('bin', op, y, x)))
@@ -126,7 +138,7 @@ def r1(ctx):
             else:
                 terms.append(t)
         flat(den)
-        wtp = Pred(lambda t: match(t, comm('Mul', one_b2, TP)) or match(t, N(f, 'weighted_tp')))
+        wtp = comm('Mul', one_b2, TP)
         counts_ok = match(quo[0][2], wtp) and len(terms) == 3 and any(match(t, wtp) for t in terms) and \
             any(match(t, comm('Mul', B2, FN)) for t in terms) and any(match(t, FP) for t in terms)
         if counts_ok:
@@ -135,12 +147,6 @@ def r1(ctx):
     ctx.require(len(zero) == 1 and len(quo) == 1 and num_ok and den_ok, f, 'f-beta',
                 'F-beta = (1 + b^2) * P * R / (b^2 * P + R), 0 when P + R == 0',
                 'F-beta is %s: the beta weight must multiply the PRECISION term of the denominator (recall-weighted F-beta)' % [show_in(f, x) for x in fs])
-    b2 = defs['beta_sq']
-    ctx.require(len(b2) == 1 and (match(b2[0], Call('powi', ('arg', 4, ANY), Const(2))) or match(b2[0], ('bin', 'Mul', ('arg', 4, ANY), ('arg', 4, ANY)))), f,
-                'beta-sq', 'beta_sq = beta^2', None)
-    v = rv[0][0][3]
-    ctx.require(match(core(v[1]), P) and match(core(v[2]), R), f,
-                'result-order', '_f1 returns (f1, precision, recall)', None)
 
 
 PANIC_INVENTORY = {
@@ -223,70 +229,66 @@ def r2(ctx):
       '(input,predicted); spelling: tp = misspelled ∩ restored, fp = changed − correct, fn = misspelled − restored; the '
       '"nothing to evaluate" flag is the conjunction of both sets being empty; binary counts follow the confusion table')
 def r3(ctx):
+    def T_(pat):
+        return Pred(lambda t: match(core(t), pat))
+
+    def setop(t):
+        """(op, a, b) of a HashSet::intersection/difference tree (core)"""
+        t = core(t)
+        if t[0] == 'call' and re.search(r'HashSet::(intersection|difference)$', t[1]) and len(t[2]) == 2:
+            return t[1].rsplit('::', 1)[-1], t[2][0], t[2][1]
+        return None
     w = ctx.body(M + '_whitespace_correction_tp_fp_fn')
-    ops = {}
-    for nm in ('gt_ops', 'pred_ops'):
-        d = [core(v) for s, v in var_defs(w, nm)]
-        ops[nm] = d
-    ok = any(match(x, Call('whitespace::operations', ('arg', 1, ANY), ('arg', 3, ANY), ANY)) for x in ops['gt_ops']) and \
-        any(match(x, Call('whitespace::operations', ('arg', 1, ANY), ('arg', 2, ANY), ANY)) for x in ops['pred_ops'])
-    ctx.require(ok, w, 'ws-ops', 'gt_ops = operations(input, target), pred_ops = operations(input, predicted)', 'ops: %s' % {k: [show_in(w, x) for x in v] for k, v in ops.items()})
-    sets = {}
-    for nm, src in (('gt_opset', 'gt_ops'), ('pred_opset', 'pred_ops')):
-        d = [core(v) for s, v in var_defs(w, nm)]
-        sets[nm] = len(d) == 1 and match(d[0], Call('_whitespace_ops_to_set', N(w, src), ('arg', 4, ANY)))
-    ctx.require(all(sets.values()), w, 'ws-sets', 'op sets are built from the respective op lists with the caller\'s mode', None)
-    want = {'tps': ('intersection', 'gt_opset', 'pred_opset', True), 'fps': ('difference', 'pred_opset', 'gt_opset', False), 'fns': ('difference', 'gt_opset', 'pred_opset', False)}
-    for nm, (op, a, bb_, sym_) in want.items():
-        d = [core(v) for s, v in var_defs(w, nm)]
-        ok = len(d) == 1 and (match(d[0], Call('HashSet::' + op, N(w, a), N(w, bb_))) or (sym_ and match(d[0], Call('HashSet::' + op, N(w, bb_), N(w, a)))))
-        ctx.require(ok, w, 'ws-set-op|' + nm, '%s = %s.%s(%s)' % (nm, a, op, bb_), '%s = %s' % (nm, [show_in(w, x) for x in d]))
+    GT = Call('_whitespace_ops_to_set', Call('whitespace::operations', ('arg', 1, ANY), ('arg', 3, ANY), ANY), ('arg', 4, ANY))
+    PR = Call('_whitespace_ops_to_set', Call('whitespace::operations', ('arg', 1, ANY), ('arg', 2, ANY), ANY), ('arg', 4, ANY))
     oks = [v for v, blk in ret_values(w) if v[0] == 'agg' and v[2].endswith('Result::Ok')]
-    okc = len(oks) == 1 and oks[0][3][0][0] == 'agg' and len(oks[0][3][0][3]) == 5
-    if okc:
-        tup = oks[0][3][0][3]
-        okc = all(match(core(tup[i]), Call('Iterator::count', N(w, nm))) for i, nm in ((1, 'tps'), (2, 'fps'), (3, 'fns')))
-        terms = conj_terms(w, tup[0])
-        oke = terms is not None and len(terms) == 2 and any(match(t, Call('HashSet::is_empty', N(w, 'gt_opset'))) for t in terms) and \
-            any(match(t, Call('HashSet::is_empty', N(w, 'pred_opset'))) for t in terms)
-        ctx.require(oke, w, 'ws-empty-flag', 'empty = gt_opset.is_empty() && pred_opset.is_empty()', 'empty flag terms: %s' % ([show_in(w, t) for t in terms] if terms else None))
-    ctx.require(okc, w, 'ws-counts', 'result counts = (tps.count(), fps.count(), fns.count())', None)
+    if len(oks) != 1 or oks[0][3][0][0] != 'agg' or len(oks[0][3][0][3]) != 5:
+        raise AnchorMissing('Ok((empty, tp, fp, fn, info)) of _whitespace_correction_tp_fp_fn')
+    tup = oks[0][3][0][3]
+    want = {1: ('tp', 'intersection', GT, PR, True), 2: ('fp', 'difference', PR, GT, False), 3: ('fn', 'difference', GT, PR, False)}
+    for i, (nm, op, A, B, symm) in want.items():
+        c = core(tup[i])
+        so = setop(c[2][0]) if c[0] == 'call' and c[1].endswith('Iterator::count') else None
+        ok = so is not None and so[0] == op and ((match(so[1], A) and match(so[2], B)) or (symm and match(so[1], B) and match(so[2], A)))
+        ctx.require(ok, w, 'ws-set-op|' + nm, 'whitespace %s = count of %s of the (input,target) / (input,predicted) operation sets in the right order' % (nm, op),
+                    'whitespace %s = %s' % (nm, show_in(w, tup[i])))
+    terms = conj_terms(w, tup[0])
+    oke = terms is not None and len(terms) == 2 and any(match(t, Call('HashSet::is_empty', GT)) for t in terms) and any(match(t, Call('HashSet::is_empty', PR)) for t in terms)
+    ctx.require(oke, w, 'ws-empty-flag', 'empty = gt_opset.is_empty() && pred_opset.is_empty()', 'empty flag terms: %s' % ([show_in(w, t) for t in terms] if terms else None))
     s = ctx.body(M + '_spelling_correction_tp_fp_fn')
-    d = {nm: [core(v) for site, v in var_defs(s, nm)] for nm in ('misspelled', 'changed', 'matching_pred_target', 'tps', 'fps', 'fns', 'correct', 'restored', 'matching_pred')}
-    ok = len(d['misspelled']) == 1 and match(d['misspelled'][0], ('field', Call('edit::edited_words', ('arg', 1, ANY), ('arg', 3, ANY)), 1)) and \
-        len(d['changed']) == 1 and match(d['changed'][0], ('field', Call('edit::edited_words', ('arg', 1, ANY), ('arg', 2, ANY)), 0)) and \
-        len(d['matching_pred_target']) == 1 and match(d['matching_pred_target'][0], ('field', Call('text::match_words', ('arg', 2, ANY), ('arg', 3, ANY), Const(0)), 0))
-    ctx.require(ok, s, 'sp-sources', 'misspelled = edited_words(input, target).1, changed = edited_words(input, predicted).0, matches = match_words(predicted, target)',
-                'sources: %s' % {k: [show_in(s, x) for x in v] for k, v in d.items() if k in ('misspelled', 'changed', 'matching_pred_target')})
-    want = {'tps': ('intersection', 'misspelled', 'restored', True), 'fps': ('difference', 'changed', 'correct', False), 'fns': ('difference', 'misspelled', 'restored', False)}
-    for nm, (op, a, bb_, sym_) in want.items():
-        ok = len(d[nm]) == 1 and (match(d[nm][0], Call('HashSet::' + op, N(s, a), N(s, bb_))) or (sym_ and match(d[nm][0], Call('HashSet::' + op, N(s, bb_), N(s, a)))))
-        ctx.require(ok, s, 'sp-set-op|' + nm, '%s = %s.%s(%s)' % (nm, a, op, bb_), '%s = %s' % (nm, [show_in(s, x) for x in d[nm]]))
-    for nm, comp in (('matching_pred', 0), ('restored', 1)):
-        t = d[nm][0] if len(d[nm]) == 1 else ()
-        mp = [x for x in walk(t) if isinstance(x, tuple) and x and x[0] == 'call' and x[1].endswith('Iterator::map')]
-        ok = len(mp) == 1
-        if ok:
+    MIS = ('field', Call('edit::edited_words', ('arg', 1, ANY), ('arg', 3, ANY)), 1)
+    CHG = ('field', Call('edit::edited_words', ('arg', 1, ANY), ('arg', 2, ANY)), 0)
+    MAT = ('field', Call('text::match_words', ('arg', 2, ANY), ('arg', 3, ANY), Const(0)), 0)
+
+    def proj(comp):
+        def f(t):
+            t = core(t)
+            mp = [x for x in walk(t) if isinstance(x, tuple) and x and x[0] == 'call' and x[1].endswith('Iterator::map')]
+            if len(mp) != 1 or not match(mp[0][2][0], MAT):
+                return False
             clo = closure_of(ctx, mp[0][2][1])
             crv = ret_values(clo)
-            ok = len(crv) == 1 and match(core(crv[0][0]), ('field', ('arg', 2, ANY), comp))
-        ctx.require(ok, s, 'sp-projection|' + nm, '%s = component %d of the (pred, target) matches' % (nm, comp), None)
-    gw = [t for t in s.calls(M + '_group_words$')]
-    ok = len(gw) == 1 and match(core(sym(s, gw[0].args[0])), ('arg', 1, ANY)) and match(core(sym(s, gw[0].args[1])), ('arg', 2, ANY)) and \
-        match(core(sym(s, gw[0].args[2])), N(s, 'matching_pred'))
-    ctx.require(ok, s, 'sp-correct', 'correct = _group_words(input, predicted, &matching_pred, ..)', None)
+            return len(crv) == 1 and match(core(crv[0][0]), ('field', ('arg', 2, ANY), comp))
+        return Pred(f)
+    RESTORED, MPRED = proj(1), proj(0)
+    CORRECT = Call(M + '_group_words', ('arg', 1, ANY), ('arg', 2, ANY), MPRED, ANY)
     rv = ret_values(s)
-    okc = len(rv) == 1 and rv[0][0][0] == 'agg' and len(rv[0][0][3]) == 5
-    if okc:
-        tup = rv[0][0][3]
-        okc = all(match(core(tup[i]), Call('Iterator::count', N(s, nm))) for i, nm in ((1, 'tps'), (2, 'fps'), (3, 'fns')))
-        terms = conj_terms(s, tup[0])
-        oke = terms is not None and len(terms) == 2 and any(match(t, Call('HashSet::is_empty', N(s, 'misspelled'))) for t in terms) and \
-            any(match(t, Call('HashSet::is_empty', N(s, 'changed'))) for t in terms)
-        ctx.require(oke, s, 'sp-empty-flag', 'empty = misspelled.is_empty() && changed.is_empty() (a sequence with false positives is not "empty")',
-                    'the "nothing to evaluate" flag is %s: a sequence whose prediction introduces errors is scored (1,1,1)' % (
-                        [show_in(s, t) for t in terms] if terms else show_in(s, tup[0])))
-    ctx.require(okc, s, 'sp-counts', 'result counts = (tps.count(), fps.count(), fns.count())', None)
+    if len(rv) != 1 or rv[0][0][0] != 'agg' or len(rv[0][0][3]) != 5:
+        raise AnchorMissing('(empty, tp, fp, fn, info) result of _spelling_correction_tp_fp_fn')
+    tup = rv[0][0][3]
+    want = {1: ('tp', 'intersection', MIS, RESTORED, True), 2: ('fp', 'difference', CHG, CORRECT, False), 3: ('fn', 'difference', MIS, RESTORED, False)}
+    for i, (nm, op, A, B, symm) in want.items():
+        c = core(tup[i])
+        so = setop(c[2][0]) if c[0] == 'call' and c[1].endswith('Iterator::count') else None
+        ok = so is not None and so[0] == op and ((match(so[1], A) and match(so[2], B)) or (symm and match(so[1], B) and match(so[2], A)))
+        ctx.require(ok, s, 'sp-set-op|' + nm, 'spelling %s: %s of the right sets (misspelled = edited_words(input,target).1, changed = '
+                    'edited_words(input,predicted).0, restored / matching = projections of match_words(predicted,target), correct = _group_words(..))' % (nm, op),
+                    'spelling %s = %s' % (nm, show_in(s, tup[i])))
+    terms = conj_terms(s, tup[0])
+    oke = terms is not None and len(terms) == 2 and any(match(t, Call('HashSet::is_empty', MIS)) for t in terms) and any(match(t, Call('HashSet::is_empty', CHG)) for t in terms)
+    ctx.require(oke, s, 'sp-empty-flag', 'empty = misspelled.is_empty() && changed.is_empty() (a sequence with false positives is not "empty")',
+                'the "nothing to evaluate" flag is %s: a sequence whose prediction introduces errors is scored (1,1,1)' % (
+                    [show_in(s, t) for t in terms] if terms else show_in(s, tup[0])))
     c = ctx.body(M + '_count_tp_fp_fn')
     clo = [x for x in ctx.facts.bodies if x.kind == 'Closure' and x.parent == c.path]
     ok = len(clo) == 1
@@ -343,12 +345,13 @@ def r4(ctx):
     ok = len(rv) == 1 and rv[0][0][0] == 'agg' and rv[0][0][3][0][0] == 'agg' and len(rv[0][0][3][0][3]) == 3
     if ok:
         parts = [core(x) for x in rv[0][0][3][0][3]]
-        num = [core(v) for site, v in var_defs(s, 'num')]
-        okn = len(num) == 1 and match(num[0], Call('Ord::max', Call('Vec::len', ANY), Const(1)))
-        ctx.require(okn, s, 'seq-count', 'the divisor is the clamped number of sequences', 'num = %s' % [show_in(s, x) for x in num])
+        nums = {nosite(p_[3]) for p_ in parts if p_[0] == 'bin' and p_[1] == 'Div'}
+        num = list(nums)
+        okn = len(num) == 1 and match(core(num[0]), Call('Ord::max', Call('Vec::len', ANY), Const(1)))
+        ctx.require(okn, s, 'seq-count', 'the divisor is the clamped number of sequences', 'divisors: %s' % [show_in(s, x) for x in num])
         folds = set()
         for i, p in enumerate(parts):
-            okp = p[0] == 'bin' and p[1] == 'Div' and match(p[2], ('field', Call('fold', ANY, ANY, ANY), i)) and match(p[3], N(s, 'num'))
+            okp = p[0] == 'bin' and p[1] == 'Div' and match(p[2], ('field', Call('fold', ANY, ANY, ANY), i)) and (len(num) == 1 and nosite(p[3]) == num[0])
             ok = ok and okp
             if okp:
                 folds.add(nosite(p[2][1]))
